@@ -312,7 +312,7 @@ def rules(ck, P):
         wfn = None
         for i in P.impls_of("::TilesWriterTrait"):
             if i.get("self_adt", "").endswith(impl_suffix):
-                wfn = P.impl_method(i, "write_to_writer")
+                wfn = P.impl_method(i, "write_to_writer", inline=False)    # this rule names the helper calls themselves
         if not ck.anchor("R-RANGES", wname + " write_to_writer", [wfn] if wfn else [], 1):
             continue
         for fld, what in pairs:
